@@ -18,7 +18,10 @@ Enumerated first on every run (exportvals.motif_family): one model per reference
 literal types at their boundary values, instances of strict subclasses of them (user classes, enum
 members, numpy scalars), look-alikes, containers, arrays, importable things - held at model level,
 space level, in a derived space, in ItemSpaces and below one, read by every pattern that exposes the
-exact type; then pairs of kinds across the literal / non-literal boundary.
+exact type; then pairs of kinds across the literal / non-literal boundary.  Then the SCOPING family
+(exportscope.family): templates x contexts x name kinds for names bound by a comprehension / lambda / nested def /
+generator expression / walrus in one place of a formula and global (reference, cells, child space, ItemSpace
+parameter, built-in) in another - Python's own scoping is the oracle.
 Oracle (implementation only): wherever the model yields a value the package must yield the
 same value; the package must import; it must not load modelx; `export` must not raise.
 Queries on which the model itself raises are not compared.
@@ -28,6 +31,9 @@ depend on formula text.  Correspondence for them:
   * `rw`: for every exported method, every name that is global in the formula must have been
     rewritten to `self.<name>` iff `MxModel.Export.shouldReplace` says so (read off the
     generated `_mx_classes.py` with `ast`);
+  * `rwo`: for every OCCURRENCE of a name that sits directly in an inlined comprehension (Python >= 3.12) the
+    scopes around it up to the first one with a symbol table (own `ast` analysis) and whether the exporter rewrote
+    that occurrence must agree with `MxModel.Export.shouldReplaceAt` (the climb `classify`);
   * `look`: for probe cells `lambda: <name>` in (nested) parametrised spaces, the value found
     by the exported instance and by modelx must be the entry `exportedLookup` / `mxLookup`
     select;
@@ -49,6 +55,7 @@ from .. import exportgen as G
 from .. import exportworld as W
 from .. import export_runner as R
 from .. import exportvals as V
+from .. import exportscope as S
 from ..impl import mx, close_all, quiet, err_kind
 
 
@@ -271,6 +278,249 @@ def rewrite_lines(desc, m, pkg_dir, skip_spaces=None):
     return out
 
 
+# ----------------------------------------------------------------------------- the per-occurrence correspondence
+
+_COMPS = (ast.ListComp, ast.SetComp, ast.DictComp)
+
+
+class _Mismatch(Exception):
+    pass
+
+
+def _comp_targets(node):
+    return sorted(set(t.id for g in node.generators for t in ast.walk(g.target) if isinstance(t, ast.Name)))
+
+
+def _arg_names(a):
+    res = [x.arg for x in list(a.posonlyargs) + list(a.args) + list(a.kwonlyargs)]
+    for x in (a.vararg, a.kwarg):
+        if x is not None:
+            res.append(x.arg)
+    return res
+
+
+def bound_in_function(fn):
+    """names Python binds in the scope of a function / lambda: parameters, assigned names, loop variables of `for`
+    statements, nested `def`s, imports, and walrus targets (also those inside its comprehensions and generator
+    expressions, which bind in the enclosing function).  No `global` / `nonlocal` / class scopes (not generated)."""
+    names = set(_arg_names(fn.args))
+
+    def visit(node, in_comp):
+        if isinstance(node, (ast.FunctionDef, ast.AsyncFunctionDef, ast.ClassDef)):
+            names.add(node.name)
+            return
+        if isinstance(node, ast.Lambda):
+            return
+        if isinstance(node, ast.NamedExpr):
+            names.add(node.target.id)
+            visit(node.value, in_comp)
+            return
+        if isinstance(node, _COMPS + (ast.GeneratorExp,)):
+            for ch in ast.iter_child_nodes(node):
+                visit(ch, True)
+            return
+        if isinstance(node, ast.Name):
+            if isinstance(node.ctx, (ast.Store, ast.Del)) and not in_comp:
+                names.add(node.id)
+            return
+        if isinstance(node, (ast.Import, ast.ImportFrom)):
+            for al in node.names:
+                names.add((al.asname or al.name).split(".")[0])
+            return
+        if isinstance(node, ast.ExceptHandler) and node.name:
+            names.add(node.name)
+        for ch in ast.iter_child_nodes(node):
+            visit(ch, in_comp)
+    for st in (fn.body if isinstance(fn.body, list) else [fn.body]):
+        visit(st, False)
+    return sorted(names)
+
+
+def occurrences(fn):
+    """-> [(Name node, chain)] for every Name of the formula; chain = [(kind, bound names, node)] innermost first,
+    kind 'c' for a list / set / dict comprehension (inlined, no symbol table), 't' for generator expressions,
+    lambdas and functions"""
+    res = []
+
+    def walk(node, chain):
+        if isinstance(node, ast.Name):
+            res.append((node, chain))
+            return
+        if isinstance(node, _COMPS + (ast.GeneratorExp,)):
+            kind = "c" if isinstance(node, _COMPS) else "t"
+            inner = [(kind, _comp_targets(node), node)] + chain
+            gens = node.generators
+            walk(gens[0].iter, chain)               # the first iterable belongs to the enclosing scope
+            for k, g in enumerate(gens):
+                walk(g.target, inner)
+                if k:
+                    walk(g.iter, inner)
+                for c in g.ifs:
+                    walk(c, inner)
+            if isinstance(node, ast.DictComp):
+                walk(node.key, inner)
+                walk(node.value, inner)
+            else:
+                walk(node.elt, inner)
+            return
+        if isinstance(node, (ast.Lambda, ast.FunctionDef)):
+            for d in list(node.args.defaults) + [x for x in node.args.kw_defaults if x is not None]:
+                walk(d, chain)
+            inner = [("t", bound_in_function(node), node)] + chain
+            for st in (node.body if isinstance(node.body, list) else [node.body]):
+                walk(st, inner)
+            return
+        for ch in ast.iter_child_nodes(node):
+            walk(ch, chain)
+    top = [("t", bound_in_function(fn), fn)]
+    for st in (fn.body if isinstance(fn.body, list) else [fn.body]):
+        walk(st, top)
+    return res
+
+
+def _merged_names(scope_node):
+    """names bound by the inlined comprehensions that sit directly in the scope (not inside a nested lambda /
+    function / generator expression): `symtable` may list them as locals of the scope (PEP 709 merges them in)"""
+    res = set()
+
+    def visit(node):
+        for ch in ast.iter_child_nodes(node):
+            if isinstance(ch, (ast.Lambda, ast.FunctionDef, ast.GeneratorExp)):
+                continue
+            if isinstance(ch, _COMPS):
+                res.update(_comp_targets(ch))
+            visit(ch)
+    visit(scope_node)
+    return res
+
+
+def pair_nodes(a, b, out):
+    """walk the formula (a) and the exported method (b) in parallel: -> out[id(Name node of a)] = 'self' | 'bare'"""
+    if isinstance(a, ast.Name):
+        if isinstance(b, ast.Attribute) and isinstance(b.value, ast.Name) and b.value.id == "self" and b.attr == a.id:
+            out[id(a)] = "self"
+            return
+        if isinstance(b, ast.Name) and b.id == a.id:
+            out[id(a)] = "bare"
+            return
+        raise _Mismatch()
+    if isinstance(a, ast.Subscript) and isinstance(b, ast.Call):
+        # `cells[x, y]` was turned into `self.cells(x, y)`
+        pair_nodes(a.value, b.func, out)
+        elts = a.slice.elts if isinstance(a.slice, ast.Tuple) else [a.slice]
+        if len(elts) != len(b.args) or b.keywords:
+            raise _Mismatch()
+        for x, y in zip(elts, b.args):
+            pair_nodes(x, y, out)
+        return
+    if type(a) is not type(b):
+        raise _Mismatch()
+    for (fa, va), (fb, vb) in zip(ast.iter_fields(a), ast.iter_fields(b)):
+        if isinstance(va, list):
+            if not isinstance(vb, list) or len(va) != len(vb):
+                raise _Mismatch()
+            for x, y in zip(va, vb):
+                if isinstance(x, ast.AST):
+                    pair_nodes(x, y, out)
+        elif isinstance(va, ast.AST):
+            if not isinstance(vb, ast.AST):
+                raise _Mismatch()
+            pair_nodes(va, vb, out)
+
+
+def observed_rewrites(fn, meth):
+    """formula node (Lambda | FunctionDef) x exported FunctionDef -> {id(Name node): 'self' | 'bare'}"""
+    out = {}
+    a_args, b_args = fn.args, meth.args
+    if not b_args.args or b_args.args[0].arg != "self":
+        raise _Mismatch()
+    for x, y in zip(a_args.defaults, b_args.defaults):
+        pair_nodes(x, y, out)
+    if isinstance(fn, ast.Lambda):
+        if len(meth.body) != 1 or not isinstance(meth.body[0], ast.Return):
+            raise _Mismatch()
+        pair_nodes(fn.body, meth.body[0].value, out)
+    else:
+        if len(fn.body) != len(meth.body):
+            raise _Mismatch()
+        for x, y in zip(fn.body, meth.body):
+            pair_nodes(x, y, out)
+    return out
+
+
+def exported_method_nodes(pkg_dir, path):
+    d = pkg_dir
+    for nm in path[:-1]:
+        d = os.path.join(d, "_m_" + nm)
+    tree = ast.parse(open(os.path.join(d, "_mx_classes.py")).read())
+    for node in tree.body:
+        if isinstance(node, ast.ClassDef) and node.name == "_c_" + path[-1]:
+            return {fn.name: fn for fn in node.body if isinstance(fn, ast.FunctionDef)}
+    return {}
+
+
+def occurrence_lines(desc, m, pkg_dir, stats, skip_spaces=None):
+    """-> [(driver line, observed 'self'|'bare', where)] for every occurrence of a name that sits directly in an
+    inlined comprehension: the scopes around it up to the first one with a symbol table (own analysis of the
+    formula with `ast`, independent of libcst / symtable), and what the exporter did with THAT occurrence"""
+    out = []
+    by_path = dict(W.iter_spaces(desc))
+    for path, sp in W.iter_spaces(desc):
+        if skip_spaces and ".".join(path) in skip_spaces:
+            continue
+        try:
+            static = W._get(m, ".".join(path))
+            cells = list(static.cells.keys())
+            refs = [k for k in static.refs.keys() if k[0] != "_"]
+            spaces = list(static.spaces.keys())
+            methods = exported_method_nodes(pkg_dir, path)
+        except Exception:       # noqa: BLE001
+            continue
+        params = []
+        for k in range(len(path), 0, -1):
+            f = by_path[path[:k]].get("formula")
+            if f and not isinstance(f, str):
+                params += [p for p, _ in f if p not in params]
+        tail = "cells=%s refs=%s spaces=%s params=%s" % (",".join(cells), ",".join(refs), ",".join(spaces),
+                                                         ",".join(params))
+        for cn in cells:
+            c = static.cells[cn]
+            meth = methods.get(("_f_" + cn) if c.is_cached else cn)
+            if meth is None:
+                continue
+            try:
+                fn = G._func_node(c.formula.source)
+                occ = occurrences(fn)
+                if not any(ch[0][0] == "c" for _n, ch in occ):
+                    continue
+                seen = observed_rewrites(fn, meth)
+            except (_Mismatch, SyntaxError, AttributeError):
+                stats["rwo_unpaired_formulas"] = stats.get("rwo_unpaired_formulas", 0) + 1
+                continue
+            merged = {}
+            for node, chain in occ:
+                if chain[0][0] != "c" or id(node) not in seen:
+                    continue
+                k = next(i for i, fr in enumerate(chain) if fr[0] == "t")
+                n = node.id
+                bound_on_path = any(n in fr[1] for fr in chain)
+                tnode = chain[k][2]
+                if not bound_on_path:
+                    if id(tnode) not in merged:
+                        merged[id(tnode)] = _merged_names(tnode)
+                    if n in merged[id(tnode)]:
+                        # a comprehension beside the path binds the name: what the table of the scope says about it
+                        # is an artefact of PEP 709's merging (and the model raises UnboundLocalError on 3.12.1)
+                        stats["rwo_skipped_merged_name"] = stats.get("rwo_skipped_merged_name", 0) + 1
+                        continue
+                non_global = sorted(set(x for fr in chain[k:] for x in fr[1]))
+                frames = ["c:" + ",".join(fr[1]) for fr in chain[:k]] + ["t:" + ",".join(non_global)]
+                line = "rwo %s f=%s %s" % (n, ";".join(frames), tail)
+                out.append((line, seen[id(node)], "%s.%s:%s@%d:%d" % (".".join(path), cn, n, node.lineno,
+                                                                       node.col_offset)))
+    return out
+
+
 # ----------------------------------------------------------------------------- the reference-value correspondence
 
 def _emit_class(node):
@@ -449,6 +699,7 @@ class Case:
         self.problem = None       # (what, detail) for failures before the comparison
         self.triggers = {}
         self.rw = []
+        self.rwo = []
         self.look = []
         self.refval = []
 
@@ -488,6 +739,11 @@ def prepare(case, rng, tmp, stats, fixed_queries=None):
         except Exception as e:      # noqa: BLE001
             stats["rw_extraction_failed"] = stats.get("rw_extraction_failed", 0) + 1
         try:
+            case.rwo = occurrence_lines(desc, m, os.path.join(tmp, case.pkg), stats,
+                                        skip_spaces=set(k for k, v in case.triggers.items() if v))
+        except Exception as e:      # noqa: BLE001
+            stats["rwo_extraction_failed"] = stats.get("rwo_extraction_failed", 0) + 1
+        try:
             case.refval = refval_lines(desc, m, os.path.join(tmp, case.pkg))
         except Exception as e:      # noqa: BLE001
             stats["refval_extraction_failed"] = stats.get("refval_extraction_failed", 0) + 1
@@ -517,7 +773,8 @@ def trigger_key(case, q):
     if path is None:
         # replayed query without generator metadata: the attribute steps are the static path
         path = [st["attr"] for st in q["sp"] if "attr" in st]
-    keys = case.triggers.get(".".join(path), set())
+    keys = set(case.triggers.get(".".join(path), set()))
+    keys |= G.query_triggers(case.desc, q["sp"], _find_src(case.desc, path, q["cells"]))
     if len(keys) == 1:
         return next(iter(keys))
     return None
@@ -565,8 +822,8 @@ def compare(case, rec, out, stats, samples):
             what = "C15: exported package returns a different value"
         if key:
             what += " [" + key + "]"
-        out.fail(what, hist(q), detail={"model": exp, "exported": got, "cells_source":
-                                        _find_src(desc, q.get("_path") or [], q["cells"])}, key=key)
+        out.fail(what, hist(q), detail={"model": exp, "exported": got, "cells_source": _find_src(
+            desc, q.get("_path") or [st["attr"] for st in q["sp"] if "attr" in st], q["cells"])}, key=key)
 
 
 def run_batch(ctx, cases, out, stats, samples, rngs=None, fixed=None):
@@ -589,6 +846,9 @@ def run_batch(ctx, cases, out, stats, samples, rngs=None, fixed=None):
             for line, obs, where in case.rw:
                 driver_lines.append(line)
                 driver_meta.append(("rw", case, obs, where))
+            for line, obs, where in case.rwo:
+                driver_lines.append(line)
+                driver_meta.append(("rwo", case, obs, where))
             for line, obs, where, tyname in case.refval:
                 driver_lines.append(line)
                 driver_meta.append(("refval", case, obs, (where, tyname)))
@@ -607,6 +867,11 @@ def run_batch(ctx, cases, out, stats, samples, rngs=None, fixed=None):
                     stats["rw_" + pred] = stats.get("rw_" + pred, 0) + 1
                     if obs != pred:
                         out.disagree({"desc": case.desc, "line": line, "where": where}, 0, obs, mo, layer="export")
+                elif kind == "rwo":
+                    stats["rwo_decisions"] = stats.get("rwo_decisions", 0) + 1
+                    stats["rwo_" + mo] = stats.get("rwo_" + mo, 0) + 1
+                    if obs != mo:
+                        out.disagree({"desc": case.desc, "line": line, "where": where}, 0, obs, mo, layer="export")
                 elif kind == "refval":
                     stats["refval_decisions"] += 1
                     pred = {"none": "literal"}.get(mo, mo)      # an invalidated modelx object is written as `None`
@@ -618,7 +883,12 @@ def run_batch(ctx, cases, out, stats, samples, rngs=None, fixed=None):
                     exp_m, got_e = obs
                     stats["look_decisions"] += 1
                     parts = dict(p.split("=", 1) for p in mo.replace("exp=", "|exp=").replace(" mx=", "|mx=").split("|") if p)
-                    if res_of(exp_m) == "err":
+                    if parts.get("exp") == "unbound" and parts.get("mx") == "unbound" and \
+                            line.split(" ")[1] in G.ALL_BUILTINS:
+                        # neither chain binds the name and it is a built-in: what happens then is the subject of
+                        # the rewriting decision (`rw`), not of the chain order
+                        stats["look_skipped_builtin_fallback"] = stats.get("look_skipped_builtin_fallback", 0) + 1
+                    elif res_of(exp_m) == "err":
                         # modelx failed for a reason other than an unbound name (e.g. its own ItemSpace
                         # construction raised): nothing to compare the chain model with
                         stats["look_skipped_model_error"] = stats.get("look_skipped_model_error", 0) + 1
@@ -650,15 +920,141 @@ def new_stats():
             "rw_decisions": 0, "look_decisions": 0, "refval_decisions": 0}
 
 
+def _run_task(task):
+    """one batch, executed in a worker process (or inline): -> what `run` merges"""
+    ctx, cases, rngs, fixed = task
+    out = core.Outcome()
+    stats = new_stats()
+    samples = []
+    run_batch(ctx, cases, out, stats, samples, rngs=rngs, fixed=fixed)
+    nontrivial = sum(1 for c in cases if c.expected and any("ok" in e for e in c.expected))
+    return out.failures, out.disagreements, stats, samples, nontrivial
+
+
+def n_jobs():
+    try:
+        j = int(os.environ.get("VERIF_C15_JOBS") or 0)
+    except ValueError:
+        j = 0
+    if j <= 0:
+        j = max(1, min(4, (os.cpu_count() or 2) // 2))
+    return j
+
+
+def run_tasks(tasks):
+    """the batches are independent of one another (every batch closes all models first, has its own scratch
+    directory, subprocess and driver call), so they run in forked worker processes; the results are merged in
+    task order, which makes the outcome independent of the number of workers"""
+    jobs = min(n_jobs(), len(tasks))
+    if jobs <= 1:
+        return [_run_task(t) for t in tasks]
+    import multiprocessing
+    close_all()
+    with multiprocessing.get_context("fork").Pool(jobs) as pool:
+        return pool.map(_run_task, tasks, chunksize=1)
+
+
+# ----------------------------------------------------------------------------- shrinking a failing input
+
+_IDENT = re.compile(r"[A-Za-z_]\w*")
+
+
+def slice_desc(desc, q):
+    """the part of the model the failing query can depend on: the spaces on its path, the cells / references /
+    spaces whose names occur (transitively) in the formulas involved, their bases and the targets of their
+    object-valued references"""
+    by_path = dict(W.iter_spaces(desc))
+    path = tuple(st["attr"] for st in q["sp"] if "attr" in st)
+    idents = {q["cells"]}
+    all_cells = {}
+    for pth, sp in by_path.items():
+        for c in sp.get("cells", []):
+            all_cells.setdefault(c["name"], []).append(c["src"])
+    todo = [q["cells"]]
+    while todo:
+        for src in all_cells.get(todo.pop(), []):
+            for n in _IDENT.findall(src):
+                if n not in idents:
+                    idents.add(n)
+                    todo.append(n)
+    keep = set()
+
+    def keep_path(pth):
+        for k in range(1, len(pth) + 1):
+            if pth[:k] not in keep and pth[:k] in by_path:
+                keep.add(pth[:k])
+                for b in by_path[pth[:k]].get("bases", []):
+                    keep_path(tuple(b.split(".")))
+    keep_path(path)
+    changed = True
+    while changed:
+        changed = False
+        before = len(keep)
+        for pth, sp in by_path.items():
+            if pth[-1] in idents and pth[:-1] in keep | {()}:
+                keep_path(pth)
+        refs = list(desc.get("grefs", [])) + [r for pth in keep for r in by_path[pth].get("refs", [])]
+        for r in refs:
+            if r["name"] in idents and "obj" in r["val"]:
+                parts = tuple(r["val"]["obj"].split("."))
+                tp = parts if parts in by_path else parts[:-1]
+                if tp in by_path:
+                    keep_path(tp)
+                if parts not in by_path:
+                    idents.add(parts[-1])
+            if r["name"] in idents and "same_as" in r["val"]:
+                idents.add(r["val"]["same_as"])
+        changed = len(keep) != before
+
+    def sp_out(pth, sp):
+        return {"name": sp["name"], "bases": sp.get("bases", []), "formula": sp.get("formula"),
+                "refs": [r for r in sp.get("refs", []) if r["name"] in idents],
+                "cells": [c for c in sp.get("cells", []) if c["name"] in idents],
+                "spaces": [sp_out(pth + (c["name"],), c) for c in sp.get("spaces", []) if pth + (c["name"],) in keep]}
+    return {"name": desc["name"], "profile": desc.get("profile"),
+            "grefs": [r for r in desc.get("grefs", []) if r["name"] in idents],
+            "spaces": [sp_out((sp["name"],), sp) for sp in desc["spaces"] if (sp["name"],) in keep],
+            "sigs": {k: v for k, v in desc.get("sigs", {}).items() if k in idents}}
+
+
+def shrink_failures(ctx, out, limit=5):
+    """replace the model of the first unexplained failures (one per distinct message) by its slice when the
+    slice still fails in the same way"""
+    seen = set()
+    for f in out.failures:
+        if f.get("key") or f["what"] in seen or len(seen) >= limit:
+            continue
+        seen.add(f["what"])
+        h = f["history"]
+        if not h.get("queries"):
+            continue
+        try:
+            small = slice_desc(h["desc"], h["queries"][0])
+            if len(json.dumps(small)) >= len(json.dumps(h["desc"])):
+                continue
+            probe = core.Outcome()
+            run_batch(ctx, [Case(0, dict(small, name="R0"), "shrink")], probe, new_stats(), [], fixed=[h["queries"]])
+            if any(g["what"] == f["what"] for g in probe.failures):
+                f["history"] = {"desc": dict(small, name=h["desc"]["name"]), "queries": h["queries"]}
+                f["detail"] = dict(f["detail"] or {}, shrunk_from_bytes=len(json.dumps(h["desc"])))
+        except Exception:       # noqa: BLE001 - the unshrunk input is reported
+            continue
+
+
+def _chunks(seq, n):
+    return [seq[k:k + n] for k in range(0, len(seq), n)]
+
+
 def run(ctx, out):
     out.level = "translation_validation"
     stats = new_stats()
     samples = []
     features = {}
     profiles = {}
-    n_models = int(os.environ.get("VERIF_C15_MODELS") or 0) or ctx.n(110, 1500)
-    batch = 35
+    n_models = int(os.environ.get("VERIF_C15_MODELS") or 0) or ctx.n(80, 1500)
+    batch = 12
     idx = 0
+    tasks = []          # (phase, (ctx, cases, rngs, fixed))
     # corpus first: witnesses of the known findings and hand-written regression models
     corpus = load_corpus()
     ccases, cfixed = [], []
@@ -669,7 +1065,7 @@ def run(ctx, out):
         cfixed.append(payload["queries"])
         idx += 1
     if ccases:
-        run_batch(ctx, ccases, out, stats, samples, fixed=cfixed)
+        tasks.append(("corpus", (ctx, ccases, None, cfixed)))
     # the structured family: one model per reference value kind, then pairs (the same on every run;
     # only the query arguments depend on the seed)
     family = V.motif_family()
@@ -681,12 +1077,19 @@ def run(ctx, out):
         mcases.append(Case(idx, d, "motif/" + label))
         mrngs.append(ctx.rng("motif", label))
         idx += 1
-    before_m = stats["compared"]
-    for k in range(0, len(mcases), batch):
-        run_batch(ctx, mcases[k:k + batch], out, stats, samples, rngs=mrngs[k:k + batch])
-    motif_compared = stats["compared"] - before_m
+    for cs, rs in zip(_chunks(mcases, batch), _chunks(mrngs, batch)):
+        tasks.append(("motif", (ctx, cs, rs, None)))
+    # the scoping family: every template on every run, for a rotating choice of name kinds (all of them in the
+    # thorough tier), plus a seed-dependent tail of random scope expressions
+    scope_formulas = 0
+    if not os.environ.get("VERIF_C15_NO_SCOPE"):
+        fam = S.family(ctx.rng("scope"), n_random=ctx.n(34, 510), per_template=ctx.n(3, None), rotation=ctx.seed)
+        for label, d, qs in fam:
+            d = dict(d, name="S%d" % idx)
+            scope_formulas += len(qs)
+            tasks.append(("scope", (ctx, [Case(idx, d, "scope/" + label)], None, [qs])))
+            idx += 1
     programs = set()
-    nontrivial = 0
     skipped_trigger = 0
     done = 0
     while done < n_models:
@@ -706,10 +1109,26 @@ def run(ctx, out):
             cases.append(Case(idx - 1, desc, "generated"))
             rngs.append(ctx.rng("queries", done))
             programs.add(json.dumps(desc, sort_keys=True))
-        before = stats["compared"]
-        run_batch(ctx, cases, out, stats, samples, rngs=rngs)
-        nontrivial += sum(1 for c in cases if c.expected and any("ok" in e for e in c.expected))
-        del before
+        if cases:
+            tasks.append(("generated", (ctx, cases, rngs, None)))
+    results = run_tasks([t for _ph, t in tasks])
+    nontrivial = 0
+    per_phase = {}
+    for (phase, _t), (fails, disagreements, st, smp, nt) in zip(tasks, results):
+        out.failures.extend(fails)
+        out.disagreements.extend(disagreements)
+        for k, v in st.items():
+            stats[k] = stats.get(k, 0) + v
+        ph = per_phase.setdefault(phase, {"compared": 0, "model_raises": 0})
+        ph["compared"] += st.get("compared", 0)
+        ph["model_raises"] += st.get("model_raises", 0)
+        for x in smp:
+            if len(samples) < 6:
+                samples.append(x)
+        if phase == "generated":
+            nontrivial += nt
+    motif_compared = per_phase.get("motif", {}).get("compared", 0)
+    shrink_failures(ctx, out)
     out.coverage.update({
         "evaluations": stats["compared"],
         "distinct_nontrivial": nontrivial,
@@ -721,6 +1140,11 @@ def run(ctx, out):
         "corpus_cases": len(corpus),
         "motif_models": len(mcases),
         "motif_values_compared": motif_compared,
+        "scope_family": {"formulas": scope_formulas,
+                         "values_compared": per_phase.get("scope", {}).get("compared", 0),
+                         "model_raises_not_compared": per_phase.get("scope", {}).get("model_raises", 0),
+                         "templates": len(S.TEMPLATES), "contexts": len(S.CONTEXTS), "name_kinds": S.N_KINDS},
+        "worker_processes": min(n_jobs(), len(tasks)),
         "value_kinds": [k.id for k in V.KINDS],
         "input_distribution": {"profiles": profiles, "features": features, "counters": stats,
                                "models_skipped_for_known_trigger": skipped_trigger},
